@@ -149,6 +149,25 @@ def _replay_state(st):
             fails.append(("product." + p, "ProductIsHamilton",
                           {"A": st["A"], "B": st["B"], "ea": ea, "eb": eb,
                            "expected": st["out"]["C"], "got": got}))
+    # what a product returned stays what it was while the caller holds it: a second product of the same shape (other
+    # values) through the same path must not write into the first result (shared output buffers)
+    u0 = lib().utils
+    raws = {"dd": lambda X, Y: u0.quat_matmat(q_from_float(X), q_from_float(Y)), "sd": lambda X, Y: u0.quat_matmat(_sp(X), q_from_float(Y)),
+            "ds": lambda X, Y: u0.quat_matmat(q_from_float(X), _sp(Y)), "ss": lambda X, Y: u0.quat_matmat(_sp(X), _sp(Y)),
+            "sd.operator": lambda X, Y: _sp(X) @ q_from_float(Y), "ss.operator": lambda X, Y: _sp(X) @ _sp(Y)}
+    tof = lambda C_: _sp_dense(C_) if (hasattr(C_, "real") and hasattr(C_, "k") and not isinstance(C_, np.ndarray)) else q_to_float(np.asarray(C_))
+    for pth, fr in raws.items():
+        n += 1
+        try:
+            first = fr(FA.copy(), FB.copy())
+            snap = tof(first).copy()
+            fr(FA * 2.0 + 1.0, FB + 1.0)
+            okr = np.array_equal(tof(first), snap) and np.array_equal(snap, expC)
+            why = [bool(np.array_equal(tof(first), snap)), bool(np.array_equal(snap, expC))]
+        except Exception as e:
+            okr, why = False, repr(e)[:200]
+        if not okr:
+            fails.append(("product." + pth + ".retained", "ProductIsHamilton", {"A": st["A"], "B": st["B"], "ea": ea, "eb": eb, "result_held_across_a_second_product": True, "why": why}))
     # 1-D operands (a vector given as shape (k,) instead of (1,k) / (k,1)): the values are those of the row / column product
     u1 = lib().utils
     one_d = []
